@@ -3,9 +3,9 @@ Contracts for the coroutines of ml_pipeline_engine/dag/manager.py (DESIGN §3.4)
 specifications per atomic segment, notification discipline, cancellation posts.
 """
 import z3
-from pyvc.values import FA
+from pyvc.values import FA, mark
 
-from pyvc.contract import Contract, ExcCase, LoopSpec, contract, A, same_value, havoc_location
+from pyvc.contract import Contract, ExcCase, LoopSpec, contract, A, same_value, havoc_location, At
 from pyvc.interp import CallArgs, StarSeq, attr_fn, TMATCH
 from pyvc.state import SymMap, SymSet, SymSeq
 from pyvc.values import (PyV, NONE, TRUE, FALSE, SymV, SymB, SymI, SymS, Ref, lift, lower, as_z3, subcls, LATTICE,
@@ -999,6 +999,7 @@ class M_run_dag(CoroBase):
 
         def inv(ctx):
             it = ctx.it
+            it.st.ghost['rd:local_tasks'] = ctx.var('local_tasks')
             lt = it.st.getf(ctx.var('local_tasks'), 'items')
             if isinstance(lt, tuple):
                 lt = it.models.to_symseq(it, lt)
@@ -1023,6 +1024,13 @@ class M_run_dag(CoroBase):
             out.append(('exactly-one-task-per-node|C04,C06', ok))
             if ok:
                 out += outer.launch_clauses(it, ctx.pre, a, effs, node, sps[0])
+                # the scope's own tasks: local_tasks gains the task launched here and nothing else (by induction it
+                # holds exactly the tasks this invocation created)
+                lt = ctx.var('local_tasks')
+                ws = [e for e in effs if e.kind == 'write' and e.obj is lt]
+                own = len(ws) == 1 and getattr(ws[0], 'op', None) == 'append'
+                out.append(('own-task-list-gains-exactly-the-launched-task|C10,C13', own and z3.simplify(
+                    T(ws[0].value, st) == T(cts[0].res, st))))
             return out
 
         return [LoopSpec(text='list_node_ids', havoc={'local_tasks': 'content'}, heap_havoc=heap_havoc, inv=inv,
@@ -1068,7 +1076,7 @@ class M_run_dag(CoroBase):
                 out.append(('runner-not-forced-to-default|C12', z3.simplify(z3.Not(B(ca.force_default)))))
         # C03.a: the launch gate
         out.append(('launched-in-a-state-where-the-node-is-ready|C03', ready_formula(it, sp.snap, a.self, a.dag, node)))
-        out.append(('not-launched-in-a-failed-one-of-scope|C10', z3.Implies(sub.is_oneof, z3.Not(
+        out.append(('not-launched-in-a-failed-one-of-scope|C10,C03', z3.Implies(sub.is_oneof, z3.Not(
             has_error_formula(it, sp.snap, a.self, a.dag)))))
         out.append(('launched-as-its-own-task-and-not-awaited|C06', not [e for e in effs if e.kind == 'yield'
                                                                           and effs.index(e) > effs.index(sp)]))
@@ -1120,8 +1128,20 @@ class M_run_dag(CoroBase):
             out.append(('early-exit-launches-nothing-further|C10', not spawns(tail) and not calls(tail, '_create_task')))
             out.append(('early-exit-releases-the-waiters-of-the-node-it-did-not-launch|C02,C10', len(unl) == 1))
             out.append(('early-exit-returns-None', T(value, st) == NONE))
-            lt_ok = len(stops) == 1
+            lt_ok = len(stops) == 1 and not [e for e in tail if e.kind == 'cancel']
             out.append(('early-exit-cancels-only-its-own-tasks|C13', lt_ok))
+            ltref = st.ghost.get('rd:local_tasks')
+            if lt_ok and ltref is not None:
+                # C10.b/d: tasks of other scopes (a shared ancestor another consumer started, a sibling one-of's
+                # candidate) are never cancelled by a failed candidate
+                seq = stops[0].a.seq
+                own = stops[0].pre.getf(ltref, 'items')
+                if isinstance(own, tuple):
+                    own = it.models.to_symseq(it, own)
+                j, k = z3.Int('esj'), z3.Int('esk')
+                out.append(('early-exit-cancels-no-task-of-another-scope|C10,C13,C02', At(stops[0].pre, FA([j], z3.Implies(
+                    z3.And(j >= 0, j < seq.len, mark(seq.at(j))),
+                    z3.Exists([k], z3.And(k >= 0, k < own.len, own.at(k) == seq.at(j)))), patterns=[seq.at(j)]))))
             return out
         # normal completion: wait for the destination, return its value
         waits = [e for e in tail if e.kind == 'wait']
@@ -1223,7 +1243,7 @@ class M_run_switch(CoroBase):
             out += [
                 ('sub-pipeline-ends-at-the-selected-case|C09', gv.dest == selected),
                 ('sub-pipeline-starts-at-the-input-node|C09', gv.source == mr.input),
-                ('sub-pipeline-keeps-the-one-of-mode-of-the-scope|C10', z3.And(gv.is_oneof == sub.is_oneof, z3.Not(gv.is_recurrent))),
+                ('sub-pipeline-keeps-the-one-of-mode-of-the-scope|C10,C05', z3.And(gv.is_oneof == sub.is_oneof, z3.Not(gv.is_recurrent))),
                 ('sub-pipeline-ignores-case-edges|C09', snap.getf(g, 'g_fedge') is not None),
                 ('no-yield-between-selection-and-building-the-sub-pipeline|C09',
                  not [y for y in ys if effects.index(ad) < y < effects.index(r) and effects[y].label != r.fn]),
